@@ -18,23 +18,28 @@ DRIVER = "drv_c05"
 LEVEL = "proof"
 LEVEL_TEXT = (
     "Lean theorems about an executable model of WorkQueue + IncrementalPublisher (+ StreamItemQueue.batches), for all "
-    "work graphs, all histories and all fuel values, no bound and no hypothesis on the environment: an announced id "
-    "never equals an id completed by an earlier payload (ids never reused after deletion, nextId monotone), no id is "
-    "completed twice, no incremental entry targets an id completed by an earlier payload, hasNext is true on every "
-    "payload but the last, a payload with hasNext=false stops the scheduler and nothing is emitted afterwards, the "
-    "graph-event handlers never emit the termination event, and StreamItemQueue.batches() delivers a prefix of the "
-    "queue's items in order (no gaps, no repeats). The remaining clauses (announced at most once, P3b, P4b, P5, P6 "
-    "end-to-end) are stated in full (`*_full`) and decided on every explored stream by the Lean decision procedure "
-    "Spec.Protocol.check. The model is tied to the code by replaying scripted histories on the real "
-    "WorkQueue/IncrementalPublisher/StreamItemQueue (event batches and payloads compared exactly); the validator is "
-    "the oracle for end-to-end runs of experimental_execute_incrementally."
+    "work graphs, all histories and all fuel values, no bound. For every well-formed environment history (EnvOk, an "
+    "explicit decidable predicate): P1/P2 announced ids are strictly increasing, hence each id is announced at most "
+    "once and never reused; P4 every announced id is completed exactly once in a stream that ended; P5 no proper "
+    "ancestor of a pending (root) fragment is left in the graph and the pending fragments form an antichain; the "
+    "scheduler-graph invariant (forest along parent, children listed once and not roots, child streams in one task "
+    "node). Without any hypothesis on the environment: ids never reused after deletion, no id completed twice, no data "
+    "after completion, P7 (hasNext true on every payload but the last; a payload with hasNext=false stops the scheduler "
+    "and nothing follows). StreamItemQueue.batches() delivers an in-order prefix of the queue's items (P6 at the "
+    "queue). Proved fuel bounds for _add_group, _prune_empty_groups, _remove_group. P3b is stated in full and REFUTED "
+    "on the model by the known finding workqueue-prunes-promoted-group-with-undelivered-shared-task "
+    "(p3b_defer_full_fails). The model is tied to the code by replaying scripted histories on the real "
+    "WorkQueue/IncrementalPublisher/StreamItemQueue (event batches and payloads compared exactly); the Lean validator "
+    "Spec.Protocol.check is the oracle for end-to-end runs of experimental_execute_incrementally."
 )
 LEVEL_NOTE = (
     "Trusted: Lean kernel; hand-written models Gql/Async/{WorkQueue,Publisher,StreamQueue}.lean tied to the code by "
     "correspondence only; asyncio scheduling is abstracted to 'one batch per quiescent point + deferred callbacks', "
     "validated on a harness-owned event loop; consumer pull timing, cancellation delivery and GC are outside the "
-    "model (covered only by the end-to-end oracle). Clauses P1 (announced at most once), P3b, P4b, P5, P6 end-to-end "
-    "are decided per explored stream by the Lean validator, not proved for all histories."
+    "model (covered only by the end-to-end oracle). P5 is proved as a state invariant of the scheduler (roots vs. "
+    "ancestors), P6 at the stream queue; the payload-level decision procedure (P3b, P5/P6 per payload, and the whole "
+    "of `check`) is run on every explored stream, not proved equivalent to the invariants. drain's fuel (events per "
+    "batch) is a parameter of every theorem; EnvOk on what the real executor feeds the queue is not observed."
 )
 TECHNIQUE = "Lean 4 trace invariants over an executable scheduler model + differential replay + spec validator oracle"
 TRUSTED = [
@@ -48,7 +53,8 @@ TRUSTED = [
 ASSUMPTIONS = [
     "EnvOk (Gql/Async/EnvOk.lean): a task settles at most once and only after it was started; fresh group/task/stream "
     "objects per Work; a new group's parent is None, in the same Work or in the graph; nested work refers only to groups "
-    "it introduces or groups of the producing task; streams deliver in index order and nothing after stop/failure",
+    "it introduces or groups of the producing task; streams deliver in index order and nothing after stop/failure; "
+    "groups are numbered by allocation serial (a group's parent object exists before the group: parent g < g)",
     "O1 (DESIGN §7): a `completed` entry for a never-announced id is accepted by the validator (no clause forbids it)",
     "the consumer pulls eagerly in the direct correspondence; lazy pulling is explored end-to-end only",
 ]
